@@ -1,6 +1,7 @@
 package main
 
 import (
+	"bufio"
 	"bytes"
 	"fmt"
 	"io"
@@ -18,6 +19,7 @@ import (
 	"github.com/q191201771/lal/pkg/httpflv"
 	"github.com/q191201771/lal/pkg/rtmp"
 	"github.com/q191201771/lal/pkg/rtsp"
+	"github.com/q191201771/naza/pkg/nazahttp"
 )
 
 // rtsp.session <ws 0|1> <auth 0|1|2|3> <describe no|nil|sdphex> <token>...
@@ -361,6 +363,43 @@ func init() {
 		}
 		return "done"
 	}
+	// rtsp.msg <req|resp> <Content-Length value, hex | none> <what strconv.Atoi makes of it: int | e | - (no or empty value)> <bytes behind the header section>
+	//     => err | eof (fewer bytes than announced) | ok <Body> <what stays unread>
+	// lal's own message reader (pkg/rtsp/http_message.go); the Atoi result is an input of the model, recomputed here so that a replay cannot lie
+	ops["rtsp.msg"] = func(a []string) string {
+		first, hdr, want := "ANNOUNCE rtsp://h/live/t RTSP/1.0\r\n", "CSeq: 1\r\n", "-"
+		if a[0] == "resp" {
+			first = "RTSP/1.0 200 OK\r\n"
+		}
+		if a[1] != "none" {
+			v := string(unhx(a[1]))
+			hdr += "Content-Length: " + v + "\r\n"
+			want = c13Atoi(v)
+		}
+		if want != a[2] {
+			return "badop"
+		}
+		r := bufio.NewReader(bytes.NewReader(append([]byte(first+hdr+"\r\n"), unhx(a[3])...)))
+		var body []byte
+		var err error
+		if a[0] == "resp" {
+			var ctx nazahttp.HttpRespMsgCtx
+			ctx, err = rtsp.VerifReadHttpResponseMessage(r)
+			body = ctx.Body
+		} else {
+			var ctx nazahttp.HttpReqMsgCtx
+			ctx, err = rtsp.VerifReadHttpRequestMessage(r)
+			body = ctx.Body
+		}
+		if err == io.EOF || err == io.ErrUnexpectedEOF { // io.ReadFull: the body is shorter than announced
+			return "eof"
+		}
+		if err != nil {
+			return "err"
+		}
+		rest, _ := io.ReadAll(r)
+		return "ok " + hx(body) + " " + hx(rest)
+	}
 	ops["fz.sess"] = c13Sess
 	ops["fz.hls"] = func(a []string) string {
 		dir, _ := os.MkdirTemp("", "c13hls")
@@ -441,4 +480,17 @@ func init() {
 			return "done" // how the pull ends (error, timeout, closed) depends on timing: not compared
 		}
 	}
+}
+
+// c13Atoi: what readHttpMessage gets from the header value: "-" no value (Headers.Get is empty), "e" strconv.Atoi fails, else the int
+func c13Atoi(v string) string {
+	t := strings.Trim(v, " ")
+	if t == "" {
+		return "-"
+	}
+	n, err := strconv.Atoi(t)
+	if err != nil {
+		return "e"
+	}
+	return strconv.Itoa(n)
 }
